@@ -286,11 +286,24 @@ Proof.
 Qed.
 
 (* ---------- choice_row: interval, range, scale, zero weights ---------- *)
+Lemma choice_row_nonneg_total D d ws : 0 <= sumZ ws -> choice_row D d ws = count_below d D (sumZ ws) 0 ws.
+Proof. intros H. unfold choice_row. destruct (Z.ltb_spec (sumZ ws) 0); [lia | reflexivity]. Qed.
+
+Lemma sumZ_opp ws : sumZ (map Z.opp ws) = - sumZ ws.
+Proof. induction ws as [|w r IH]; simpl; [reflexivity|]. rewrite IH. lia. Qed.
+
+(* a negative total: the same decision as for the negated weights *)
+Lemma choice_row_negative_total D d ws : sumZ ws < 0 -> choice_row D d ws = choice_row D d (map Z.opp ws).
+Proof.
+  intros H. unfold choice_row. rewrite sumZ_opp.
+  destruct (Z.ltb_spec (sumZ ws) 0); [|lia]. destruct (Z.ltb_spec (- sumZ ws) 0); [lia | reflexivity].
+Qed.
+
 Lemma choice_row_interval D d ws k : 0 <= D -> nonneg ws -> (k < length ws)%nat ->
   (choice_row D d ws = k <->
    d * sumZ ws <= cum ws k * D /\ forall j, (j < k)%nat -> cum ws j * D < d * sumZ ws).
 Proof.
-  intros HD Hn Hk. unfold choice_row. split.
+  intros HD Hn Hk. rewrite (choice_row_nonneg_total D d ws (sumZ_nonneg ws Hn)). split.
   - intros Hc. split.
     + exact (count_below_upper d D (sumZ ws) HD ws 0 k Hn Hc Hk).
     + intros j Hj. exact (count_below_above d D (sumZ ws) HD ws 0 k Hn Hc j Hj).
@@ -304,7 +317,7 @@ Qed.
 Lemma choice_row_in_range D d ws : 0 <= D -> d <= D -> nonneg ws -> 0 < sumZ ws ->
   (choice_row D d ws < length ws)%nat.
 Proof.
-  intros HD Hd Hn HW. unfold choice_row. apply count_below_lt; auto.
+  intros HD Hd Hn HW. rewrite (choice_row_nonneg_total D d ws) by lia. apply count_below_lt; auto.
   - intros ->. simpl in HW. lia.
   - simpl. nia.
 Qed.
@@ -325,8 +338,15 @@ Qed.
 
 Lemma choice_row_scale c D d ws : 0 < c -> choice_row D d (map (Z.mul c) ws) = choice_row D d ws.
 Proof.
-  intros Hc. unfold choice_row. rewrite sumZ_scale. replace 0 with (c * 0) at 1 by ring.
-  now apply count_below_scale.
+  intros Hc. unfold choice_row. rewrite sumZ_scale.
+  assert (Hs : (c * sumZ ws <? 0) = (sumZ ws <? 0)).
+  { destruct (Z.ltb_spec (c * sumZ ws) 0), (Z.ltb_spec (sumZ ws) 0); try reflexivity; nia. }
+  rewrite Hs. destruct (sumZ ws <? 0).
+  - replace (map Z.opp (map (Z.mul c) ws)) with (map (Z.mul c) (map Z.opp ws))
+      by (rewrite !map_map; apply map_ext; intros; ring).
+    replace (- (c * sumZ ws)) with (c * - sumZ ws) by ring. replace 0 with (c * 0) at 1 by ring.
+    now apply count_below_scale.
+  - replace 0 with (c * 0) at 1 by ring. now apply count_below_scale.
 Qed.
 
 Lemma choice_row_proportional a b D d ws ws' : 0 < a -> 0 < b -> map (Z.mul a) ws = map (Z.mul b) ws' ->
@@ -349,11 +369,11 @@ Qed.
 (* the corner (finding F-G): a draw of exactly 0 is above no bin, so option 0 is returned whatever its weight *)
 Lemma choice_row_zero_draw D ws : 0 <= D -> nonneg ws -> choice_row D 0 ws = O.
 Proof.
-  intros HD Hn. unfold choice_row. apply count_below_zero; auto. lia.
+  intros HD Hn. rewrite (choice_row_nonneg_total D 0 ws (sumZ_nonneg ws Hn)). apply count_below_zero; auto. lia.
 Qed.
 
 (* ---------- residual ---------- *)
-Lemma fill_gen_Wt (v : Z) l : map (fun x => match x with Wt w => w | Residual => v end) (map Wt l) = l.
+Lemma fill_gen_Wt (v : Z) l : map (fun x => match x with Wt w => w | Residual => v | _ => 0 end) (map Wt l) = l.
 Proof. induction l as [|w l IH]; simpl; [reflexivity | now rewrite IH]. Qed.
 
 Lemma fill_Wt U l : fill U (map Wt l) = l.
@@ -363,11 +383,11 @@ Lemma no_res_Wt l : existsb is_res (map Wt l) = false.
 Proof. induction l; simpl; auto. Qed.
 
 Lemma sum_fill_gen (v : Z) row :
-  sumZ (map (fun x => match x with Wt w => w | Residual => v end) row) = others row + v * Z.of_nat (count_res row).
+  sumZ (map (fun x => match x with Wt w => w | Residual => v | _ => 0 end) row)
+  = others row + v * Z.of_nat (count_res row).
 Proof.
   unfold others, count_res. induction row as [|x row IH]; [simpl; lia|].
-  destruct x as [w|]; cbn [map sumZ wval filter is_res length]; rewrite IH; [lia|].
-  rewrite Nat2Z.inj_succ. lia.
+  destruct x as [w| | |]; cbn [map sumZ wval filter is_res length]; rewrite IH; lia.
 Qed.
 
 Lemma sum_fill_residual U row : count_res row = 1%nat -> sumZ (fill U row) = U.
@@ -376,8 +396,8 @@ Proof. intros H. unfold fill. rewrite sum_fill_gen, H. simpl. lia. Qed.
 Lemma fill_no_res U row : count_res row = 0%nat -> fill U row = map wval row.
 Proof.
   unfold fill, count_res. generalize (U - others row) as v. intros v.
-  induction row as [|x row IH]; simpl; [reflexivity|]. destruct x as [w|]; simpl; [|discriminate].
-  intros H. now rewrite IH.
+  induction row as [|x row IH]; simpl; [reflexivity|].
+  destruct x as [w| | |]; simpl; try discriminate; intros H; now rewrite IH.
 Qed.
 
 Lemma set_residual_ok U rows rs : set_residual U rows = Ok rs -> rs = map (fill U) rows.
@@ -519,3 +539,210 @@ Qed.
 
 Lemma choice_length_mismatch_inert D U draws c p ks : choice D U draws c p = Ok ks -> length ks = length draws.
 Proof. intros H. now apply choice_ok in H. Qed.
+
+(* =====================================================================================================================
+   the non-finite corner: nan / +inf / -inf probabilities, rates and weights; negative rates and weights
+   ===================================================================================================================== *)
+Definition in_range (D : Z) (ds : list Z) : Prop := Forall (fun d => 0 <= d < D) ds.
+
+Lemma x_lt_clamp D d p : 0 <= d < D -> x_lt d p = (d <? clamp D p).
+Proof.
+  intros H. destruct p; simpl; try reflexivity; symmetry.
+  - apply Z.ltb_ge. lia.
+  - apply Z.ltb_lt. lia.
+  - apply Z.ltb_ge. lia.
+Qed.
+
+Lemma mask_filter_x_clamp {A} D (xs : list A) : forall ds ps, in_range D ds ->
+  mask_filter_x xs ds ps = mask_filter xs ds (map (clamp D) ps).
+Proof.
+  induction xs as [|x xs IH]; intros ds ps H; simpl; [reflexivity|].
+  destruct ds as [|d ds]; [reflexivity|]. destruct ps as [|p ps]; [reflexivity|].
+  inversion H as [|? ? Hd Hr]; subst. simpl. rewrite (x_lt_clamp D d p Hd), (IH ds ps Hr). reflexivity.
+Qed.
+
+Lemma expand_x_clamp D idx p :
+  expand_p idx (clamp_spec D p) =
+  match expand_x idx p with Ok ps => Ok (map (clamp D) ps) | Rejected e => Rejected e | OutOfFuel => OutOfFuel end.
+Proof.
+  destruct p as [x|ps|ls ps]; simpl.
+  - now rewrite map_map.
+  - rewrite map_length. now destruct (Nat.eqb (length ps) (length idx)).
+  - rewrite map_length. now destruct (zlist_eqb ls idx && Nat.eqb (length ps) (length ls)).
+Qed.
+
+(* for draws in [0,1): a nan or -inf probability is probability 0, +inf is probability 1 - everything proved about
+   filter_p (order, content, monotonicity, zero, one) carries over *)
+Lemma filter_px_clamp {A} D (pop : list (label * A)) ds p : in_range D ds ->
+  filter_px pop ds p = filter_p pop ds (clamp_spec D p).
+Proof.
+  intros H. destruct pop as [|r pop]; [reflexivity|]. unfold filter_px, filter_p. rewrite expand_x_clamp.
+  destruct (expand_x (map fst (r :: pop)) p) as [ps| |]; cbn [rbind]; try reflexivity.
+  now rewrite (mask_filter_x_clamp D (r :: pop) ds ps H).
+Qed.
+
+Lemma mask_filter_x_fun {A} (key : A -> Z) (draw : Z -> Z) (pr : Z -> xnum) (xs : list A) :
+  mask_filter_x xs (map (fun x => draw (key x)) xs) (map (fun x => pr (key x)) xs)
+  = filter (fun x => x_lt (draw (key x)) (pr (key x))) xs.
+Proof. induction xs as [|x xs IH]; simpl; [reflexivity|]. now rewrite IH. Qed.
+
+Lemma filter_px_exact {A} (pop : list (label * A)) (draw : label -> Z) (pr : label -> xnum) :
+  filter_px pop (map (fun r => draw (fst r)) pop) (XArray (map pr (map fst pop)))
+  = Ok (filter (fun r => x_lt (draw (fst r)) (pr (fst r))) pop).
+Proof.
+  destruct pop as [|r pop]; [reflexivity|]. unfold filter_px. simpl expand_x.
+  rewrite !map_length, Nat.eqb_refl. simpl rbind. f_equal. rewrite map_map.
+  apply (mask_filter_x_fun fst draw pr (r :: pop)).
+Qed.
+
+Lemma x_lt_nonfinite d : x_lt d XNaN = false /\ x_lt d XNInf = false /\ x_lt d XPInf = true.
+Proof. repeat split. Qed.
+
+(* rates *)
+Lemma r2p_x_nan D cap expneg : r2p_x D cap expneg XNaN = XNaN /\ r2p_x D cap expneg XNInf = XNInf.
+Proof. split; reflexivity. Qed.
+
+Lemma r2p_x_pinf D cap expneg z : cap <= z -> r2p_x D cap expneg XPInf = r2p_x D cap expneg (Fin z).
+Proof. intros H. simpl. f_equal. symmetry. now apply r2p_capped. Qed.
+
+Lemma r2p_nonpositive D cap (expneg : Z -> Z) : (forall r r', r <= r' -> expneg r' <= expneg r) ->
+  expneg 0 = D -> 0 <= cap -> forall r, r <= 0 -> r2p D cap expneg r <= 0.
+Proof.
+  intros Hexp H0 Hc r Hr. rewrite <- (r2p_zero D cap expneg H0 Hc). now apply r2p_monotone.
+Qed.
+
+(* weights *)
+Definition finite_row (row : list wt) : Prop := existsb nonfinite row = false.
+Definition finite_spec (p : wspec) : Prop :=
+  match p with WNone => True | W1 row => finite_row row | W2 rows => Forall finite_row rows end.
+
+Lemma finite_row_split row : finite_row row -> existsb is_nan row = false /\ existsb is_inf row = false.
+Proof.
+  unfold finite_row. induction row as [|x row IH]; simpl; [auto|]. intros H.
+  apply orb_false_iff in H as [H1 H2]. unfold nonfinite in H1. apply orb_false_iff in H1 as [Hn Hi].
+  destruct (IH H2) as [A B]. now rewrite Hn, Hi, A, B.
+Qed.
+
+Lemma sanitize_row_id row : existsb is_nan row = false -> sanitize_row row = row.
+Proof. intros H. unfold sanitize_row. now rewrite H. Qed.
+
+Lemma existsb_Forall_false {A} (f : A -> bool) l : Forall (fun x => f x = false) l -> existsb f l = false.
+Proof. induction 1 as [|x l Hx _ IH]; simpl; [reflexivity | now rewrite Hx, IH]. Qed.
+
+Lemma Forall_repeat {A} (P : A -> Prop) x n : P x -> Forall P (repeat x n).
+Proof. intros H. induction n; simpl; constructor; auto. Qed.
+
+Lemma finite_ones c : finite_row (repeat (Wt 1) c).
+Proof. unfold finite_row. apply existsb_Forall_false. now apply Forall_repeat. Qed.
+
+Lemma finite_nil : finite_row [].
+Proof. reflexivity. Qed.
+
+Lemma finite_initial_rows n c p : finite_spec p -> Forall finite_row (initial_rows n c p).
+Proof.
+  destruct p as [|row|rows]; simpl; intros H.
+  - apply Forall_repeat, finite_ones.
+  - now apply Forall_repeat.
+  - assumption.
+Qed.
+
+Lemma finite_row_of c p i : finite_spec p -> finite_row (row_of c p i).
+Proof.
+  destruct p as [|row|rows]; simpl; intros H; [apply finite_ones | assumption |].
+  destruct rows as [|r [|r2 rest]]; [destruct i; apply finite_nil | now inversion H |].
+  destruct (nth_in_or_default i (r :: r2 :: rest) []) as [Hin|Hd].
+  - rewrite Forall_forall in H. now apply H.
+  - rewrite Hd. apply finite_nil.
+Qed.
+
+Lemma sanitize_finite p : finite_spec p -> sanitize p = p.
+Proof.
+  destruct p as [|row|rows]; simpl; intros H; [reflexivity | |].
+  - f_equal. apply sanitize_row_id. now apply finite_row_split.
+  - f_equal. induction H as [|r rows Hr _ IH]; simpl; [reflexivity|].
+    rewrite IH. f_equal. apply sanitize_row_id. now apply finite_row_split.
+Qed.
+
+Lemma override_all_false flags : forall ks, Forall (fun b => b = false) flags -> length flags = length ks ->
+  override flags ks = ks.
+Proof.
+  induction flags as [|f fs IH]; intros [|k ks] H L; simpl in *; try discriminate; [reflexivity|].
+  inversion H; subst. f_equal. apply IH; auto.
+Qed.
+
+Lemma override_nth flags : forall ks i, length flags = length ks -> (i < length ks)%nat ->
+  nth i (override flags ks) O = if nth i flags false then O else nth i ks O.
+Proof.
+  induction flags as [|f fs IH]; intros [|k ks] i L Hi; simpl in *; try discriminate; try lia.
+  destruct i as [|i]; [reflexivity|]. apply IH; lia.
+Qed.
+
+Lemma override_length flags : forall ks, length flags = length ks -> length (override flags ks) = length ks.
+Proof. induction flags as [|f fs IH]; intros [|k ks] L; simpl in *; try discriminate; [reflexivity|]. f_equal. apply IH. lia. Qed.
+
+Lemma nan_flags_length n c p : length (nan_flags n c p) = n.
+Proof. unfold nan_flags. now rewrite map_length, seq_length. Qed.
+
+Lemma nan_flags_nth n c p i : (i < n)%nat -> nth i (nan_flags n c p) false = existsb is_nan (row_of c p i).
+Proof.
+  intros Hi. unfold nan_flags.
+  rewrite (nth_indep _ false (existsb is_nan (row_of c p 0))) by (now rewrite map_length, seq_length).
+  rewrite (map_nth (fun i => existsb is_nan (row_of c p i)) (seq 0 n) 0%nat i). now rewrite seq_nth.
+Qed.
+
+(* with finite weights the extended function IS the finite one: every theorem about [choice] applies *)
+Lemma choice_x_finite D U draws c p : finite_spec p -> choice_x D U draws c p = choice D U draws c p.
+Proof.
+  intros H. unfold choice_x. pose proof (finite_initial_rows (length draws) c p H) as HF.
+  assert (E1 : existsb (existsb nonfinite) (initial_rows (length draws) c p) = false).
+  { apply existsb_Forall_false. exact HF. }
+  assert (E2 : existsb (fun r => negb (existsb is_nan r) && existsb is_inf r) (initial_rows (length draws) c p) = false).
+  { apply existsb_Forall_false. eapply Forall_impl; [|exact HF]. intros r Hr. simpl.
+    destruct (finite_row_split r Hr) as [_ ->]. apply andb_false_r. }
+  rewrite E1, andb_false_r, E2, (sanitize_finite p H).
+  destruct (choice D U draws c p) as [ks| |] eqn:Ec; simpl; try reflexivity. f_equal.
+  apply override_all_false.
+  - unfold nan_flags. apply Forall_forall. intros b Hb. apply in_map_iff in Hb as [i [<- _]].
+    now destruct (finite_row_split _ (finite_row_of c p i H)).
+  - rewrite nan_flags_length. symmetry. now apply choice_ok in Ec.
+Qed.
+
+Lemma row_of_sanitize c p i : row_of c (sanitize p) i = sanitize_row (row_of c p i).
+Proof.
+  destruct p as [|row|rows]; simpl.
+  - symmetry. apply sanitize_row_id. now destruct (finite_row_split _ (finite_ones c)).
+  - reflexivity.
+  - destruct rows as [|r [|r2 rest]]; [destruct i; reflexivity | reflexivity |].
+    exact (map_nth sanitize_row (r :: r2 :: rest) [] i).
+Qed.
+
+(* a weight row containing nan always yields option 0, whatever the draw; every other row decides as before *)
+Lemma choice_x_ok D U draws c p ks : choice_x D U draws c p = Ok ks ->
+  length ks = length draws /\
+  forall i, (i < length draws)%nat ->
+    (existsb is_nan (row_of c p i) = true -> nth i ks O = O) /\
+    (existsb is_nan (row_of c p i) = false ->
+       nth i ks O = choice_row D (nth i draws 0) (fill U (row_of c p i))).
+Proof.
+  unfold choice_x.
+  destruct (existsb (existsb is_res) _ && existsb (existsb nonfinite) _); [discriminate|].
+  destruct (existsb (fun r => negb (existsb is_nan r) && existsb is_inf r) _); [discriminate|].
+  destruct (choice D U draws c (sanitize p)) as [ks0| |] eqn:Ec; simpl; try discriminate.
+  intros [= <-]. destruct (choice_ok D U draws c (sanitize p) ks0 Ec) as [L R].
+  assert (LF : length (nan_flags (length draws) c p) = length ks0) by (now rewrite nan_flags_length).
+  split; [now rewrite override_length|].
+  intros i Hi. rewrite (override_nth _ ks0 i LF) by lia. rewrite (nan_flags_nth _ c p i Hi).
+  split; intros Hn; rewrite Hn; [reflexivity|].
+  destruct (R i Hi) as [-> _]. now rewrite row_of_sanitize, (sanitize_row_id _ Hn).
+Qed.
+
+(* a row with an infinite weight (and no nan) is refused *)
+Lemma choice_x_inf D U draws c p r : In r (initial_rows (length draws) c p) ->
+  existsb is_nan r = false -> existsb is_inf r = true -> choice_x D U draws c p = Rejected EOther.
+Proof.
+  intros Hin Hn Hi. unfold choice_x.
+  destruct (existsb (existsb is_res) _ && existsb (existsb nonfinite) _); [reflexivity|].
+  assert (E : existsb (fun r => negb (existsb is_nan r) && existsb is_inf r) (initial_rows (length draws) c p) = true).
+  { apply existsb_exists. exists r. split; [assumption|]. now rewrite Hn, Hi. }
+  now rewrite E.
+Qed.
